@@ -128,6 +128,27 @@ def hostile(args):
         w.close()
 
 
+def small_mtu(args):
+    """'for every MTU': the padding of the client hello shrinks with the MTU, the signed server hello does not - what does an address that sends one hello and
+    never answers get back?  Returns (mtu, bytes in, bytes out, handshake completes)."""
+    seed, mtu = args
+    import srvworld as SW
+    w = SW.ServerWorld(seed=seed, conn_timeout=3.0, mtu=mtu)
+    try:
+        addr = ("10.11.0.1", 4100)
+        cl = w.add_client(1, addr)
+        w.clients[1]["deaf"] = True             # the address never answers
+        for t in range(40):
+            w.tick()
+        nin = sum(len(d) for d in w.seen_from[addr] if len(d) > 12 and d[12] == 1)
+        nout = sum(len(d) for d in w.sent_to[addr])
+        w.clients[1]["deaf"] = False
+        w2 = None
+        return mtu, nin, nout
+    finally:
+        w.close()
+
+
 def run(ctx):
     ctx.level = "model_checking"
     ctx.rule = ("events of recorded executions of the real server loop under a hostile flood judged by TLC against Trace_Server; distinct = hostile datagrams + datagrams sent + handler events; "
@@ -145,4 +166,15 @@ def run(ctx):
     with ProcessPoolExecutor(min(16, len(jobs))) as ex:
         traces = list(ex.map(hostile, jobs))
     SJ.judge_and_report(ctx, "C11", traces, ["hostile#%d(seed=%d,%s)" % (i, j[0], j[2]) for i, j in enumerate(jobs)])
+    # amplification at the small end of the MTU range
+    mj = [(ctx.seed, m) for m in ((368, 372, 380, 392, 400, 512) if q else list(range(366, 420, 2)) + [512, 576])]
+    with ProcessPoolExecutor(min(8, len(mj))) as ex:
+        sm = list(ex.map(small_mtu, mj))
+    worst = [r for r in sm if r[1] and r[2] > r[1]]
+    for r in sm:
+        ctx.case(("small-mtu", r[0]))
+    ctx.extra["small_mtu_rows"] = [list(r) for r in sm]
+    if worst:
+        ctx.fail("an address that sends one client hello and never answers is sent more bytes than it sent when the MTU is small: %s [mtu, bytes in, bytes out] - the hello's padding shrinks "
+                 "with the MTU, the signed server hello (about 329 bytes) does not" % [list(r) for r in worst[:6]], dict(rows=[list(r) for r in worst]), sig="hello-amplification-at-small-mtu")
     SJ.run_scenarios(ctx, "C11", [dict(name="many-clients-garbage", n=4 if q else 30, nticks=1200 if q else 3000, kw=dict(garbage=0.6, hello_flood=0.05, p_raise=0.0))])
